@@ -373,6 +373,7 @@ def server_loop_keeps_answering(ctx, only=None):
 
 def run(ctx):
     rng = ctx.rng
+    tg.set_verbosity_seed(ctx.seed)
     server_start(ctx)
     server_loop_keeps_answering(ctx)
     all_in, all_out = [], []
@@ -466,6 +467,9 @@ def replay(ctx, rep):
         return tg.replay_work(case)
     s, wrote = tg.replay_script(case)
     try:
+        common_verdict = tg.replay_common(s)
+        if common_verdict:
+            return common_verdict
         t = s.t
         if t.died:
             return True, 'process died: %s' % t.died
